@@ -576,6 +576,8 @@ func starterAbandoned(c Case) bool {
 	return c.Construct == cSplit && c.Mode == mAbandonClose && c.Variant == 0 && c.Workers >= 2 && c.K >= 1 && c.K < c.N
 }
 
+var knownHits int
+
 func oracle(run *kit.Run, c Case, o Obs) {
 	fail := func(class, detail string) {
 		run.OracleFail(c.ID, "C04:"+c.Name+":"+class, detail, c, o)
@@ -594,6 +596,7 @@ func oracle(run *kit.Run, c Case, o Obs) {
 			first = o.Stacks[0]
 		}
 		if starterAbandoned(c) && o.Leak == 1 && strings.Contains(first, "ChanSend") && o.LeakAfter == 0 {
+			knownHits++
 			fail("starter-abandoned", fmt.Sprintf("Split(%d): output 0 started the splitter and was abandoned, the others were closed after %d of %d items: the splitter is still blocked in ChanSend.Write %v later (it ends with the user's context)", c.Workers, c.K, c.N, leakBound))
 		} else {
 			fail("goroutine-leak", fmt.Sprintf("%d goroutine(s) of the library still alive %v after the consumer stopped (%s at k=%d of n=%d, workers=%d): %s",
@@ -673,7 +676,11 @@ func main() {
 	}
 
 	id := 0
+	unexpected := func() int { return run.NOracle - knownHits }
 	do := func(c Case) {
+		if unexpected() >= 3 { // enough evidence; every further failing scenario costs a full time bound
+			return
+		}
 		c.ID = id
 		id++
 		if c.Procs == 0 {
@@ -692,9 +699,9 @@ func main() {
 
 	constructs := []int{cSplit, cProcessParallel, cMap, cParallelBuffer, cBuffer, cMerge, cGenerate, cChain, cMergeSlices,
 		cMergeSliceIters, cBufferedChannel, cDtMap, cAdtMap}
-	ns := []int{0, 1, 3, 6}
+	ns := []int{0, 1, 2, 3, 6}
 	workers := []int{1, 2, 3}
-	rounds := run.Pick(1, 10)
+	rounds := run.Pick(2, 10)
 	if run.Thorough() {
 		ns = []int{0, 1, 2, 3, 6, 9, 17}
 		workers = []int{1, 2, 3, 8}
